@@ -562,6 +562,9 @@ func reqStrings(reqs []request) []string {
 		for _, h := range q.query {
 			seen[h.v] = true
 		}
+		for _, h := range q.claims {
+			seen[h.v] = true
+		}
 	}
 	var out []string
 	for k := range seen {
